@@ -5,6 +5,12 @@ ROOT = os.path.dirname(os.path.dirname(os.path.abspath(__file__)))
 props = [json.loads(l) for l in open(os.path.join(ROOT, "properties.jsonl"))]
 
 CLAIMED = {
+    "C01": dict(cat="model_checking", tech="TLA+ terminal model (spec/term) + TLC trace validation of per-character executions of the real emulations; crash containment by worker processes",
+                text="Every character fed to each of the ten text emulations is one recorded step judged by Trace_Term under TLC (outcome must be an action or an error; a worker abort is a crash event). Streams come from the control-function table x parameter classes, sub-language strings, front-end lead-ins, random bytes, on screens 1..132 x 1..60. Observation of generated executions, not a proof.",
+                note="dev-profile build (overflow checks); catch_unwind per character; aborts attributed via progress file", ref="4/C01"),
+    "C09": dict(cat="model_checking", tech="caret-in-screen / fixed-grid invariants evaluated by TLC on the recorded geometry after every character (Trace_Term)",
+                text="After every character of every generated stream (until a resize request) the recorded caret, terminal size and buffer size must satisfy CaretInScreen, and Viewdata/Mode 7 the fixed 40x24 grid; evaluated by TLC on traces of the real engine. Bounded/sampled exploration of the input space.",
+                note="geometry read through the public API after each character", ref="4/C09"),
     "C16": dict(cat="model_checking", tech="TLA+ model of the palette table checked by TLC; TLC-generated operation sequences replayed into the Rust code; recorded traces validated by Trace_Palette under TLC",
                 text="Palette.tla models the index table; TLC checks InsertOk on all operation sequences <= 5 and exports witnesses that are replayed into icy_engine::Palette; every recorded insert (direct, via SGR/CSI t), every palette-file export/import and the 6-bit codec are judged by Trace_Palette. Bounded + sampled, not a proof of the Rust code.",
                 note="trusts the harness projection (get_rgb of every index after each call) and TLC", ref="4/C16"),
